@@ -112,6 +112,22 @@ func contexts() []wrap {
 		{"after-unescaped-children-command", func(n *gen.Node) []*gen.Node {
 			return []*gen.Node{{Kind: gen.KChildren, Unescaped: true}, n, p("after")}
 		}},
+		{"after-plain-filter", func(n *gen.Node) []*gen.Node {
+			return []*gen.Node{{Kind: gen.KFilter, Filter: "plain", Lines: [][]gen.Part{{st("raw "), dyn("s1")}}}, n, p("after")}
+		}},
+		{"after-preserve-filter", func(n *gen.Node) []*gen.Node {
+			return []*gen.Node{{Kind: gen.KFilter, Filter: "preserve", Lines: [][]gen.Part{{st("kept "), dyn("s1")}}}, n, p("after")}
+		}},
+		// a filter line with no body under it is legal
+		{"after-empty-plain-filter", func(n *gen.Node) []*gen.Node {
+			return []*gen.Node{{Kind: gen.KFilter, Filter: "plain"}, n, p("after")}
+		}},
+		{"after-empty-preserve-filter", func(n *gen.Node) []*gen.Node {
+			return []*gen.Node{{Kind: gen.KFilter, Filter: "preserve"}, n, p("after")}
+		}},
+		{"after-empty-escaped-filter", func(n *gen.Node) []*gen.Node {
+			return []*gen.Node{{Kind: gen.KFilter, Filter: "escaped"}, n, p("after")}
+		}},
 		{"in-nuked-element", func(n *gen.Node) []*gen.Node {
 			return []*gen.Node{{Kind: gen.KElem, Tag: "div", NukeInner: true, NukeOuter: true, Kids: []*gen.Node{n}}, p("after")}
 		}},
@@ -324,6 +340,15 @@ func staticSites() []staticSite {
 			func(s string) *gen.Node { return &gen.Node{Kind: gen.KFilter, Filter: "javascript", Lines: [][]gen.Part{{st(s)}}} }},
 		{"filter-escaped", true, func(s string) bool { return noneOf("\n\r")(s) && !strings.Contains(s, "#{") },
 			func(s string) *gen.Node { return &gen.Node{Kind: gen.KFilter, Filter: "escaped", Lines: [][]gen.Part{{st(s)}}} }},
+		// the literal on a body line that follows one, or two, completely empty lines of the same filter body
+		{"filter-plain-after-empty-line", false, func(s string) bool { return noneOf("\n\r")(s) && !strings.Contains(s, "#{") },
+			func(s string) *gen.Node { return &gen.Node{Kind: gen.KFilter, Filter: "plain", Lines: [][]gen.Part{{st("first")}, nil, {st(s)}}} }},
+		{"filter-css-after-empty-lines", false, func(s string) bool { return noneOf("\n\r")(s) && !strings.Contains(s, "#{") },
+			func(s string) *gen.Node { return &gen.Node{Kind: gen.KFilter, Filter: "css", Lines: [][]gen.Part{{st("a { b: c }")}, nil, nil, {st(s)}}} }},
+		{"filter-javascript-after-empty-line", false, func(s string) bool { return noneOf("\n\r")(s) && !strings.Contains(s, "#{") },
+			func(s string) *gen.Node { return &gen.Node{Kind: gen.KFilter, Filter: "javascript", Lines: [][]gen.Part{{st("var a = 1;")}, nil, {st(s)}}} }},
+		{"filter-escaped-after-empty-line", true, func(s string) bool { return noneOf("\n\r")(s) && !strings.Contains(s, "#{") },
+			func(s string) *gen.Node { return &gen.Node{Kind: gen.KFilter, Filter: "escaped", Lines: [][]gen.Part{{st("first")}, nil, {st(s)}}} }},
 		{"tag-name", true, ident, func(s string) *gen.Node { return el(&gen.Node{Tag: s, Inline: txt(st("x"))}) }},
 		{"id", true, ident, func(s string) *gen.Node { return el(&gen.Node{Tag: "p", ID: s, Inline: txt(st("x"))}) }},
 		{"id-first", true, ident, func(s string) *gen.Node { return el(&gen.Node{ID: s, Inline: txt(st("x"))}) }},
